@@ -119,7 +119,7 @@ def HashRecord(x: "ProvRecord") -> "int":
     return uf("hash_tuple3", "int", hash_of(x._prov_type), hash_of(x._identifier), hash_of(attr_set(x._attributes)))
 
 
-@contract("prov.model.ProvRecord.attributes", props=["C04", "C05", "C08", "C09"])
+@contract("prov.model.ProvRecord.attributes", props=["C04", "C05", "C08", "C09", "C13"])
 def ProvRecord_attributes(self: "ProvRecord") -> "Seq[Tup[Val,Val]]":
     pure()
     reveal("canon_in", "NormalPair")
@@ -138,7 +138,7 @@ def ProvRecord_attributes(self: "ProvRecord") -> "Seq[Tup[Val,Val]]":
                                         and same(qm_key(self._attributes, a.uri), a)), "QN", "Val"))
 
 
-@contract("prov.model.ProvRecord.__eq__", props=["C04"])
+@contract("prov.model.ProvRecord.__eq__", props=["C04", "C13"])
 def ProvRecord_eq(self: "ProvRecord", other: "Val") -> "bool":
     pure()
     requires("attrs-wf", AttrsWF(self))
@@ -146,7 +146,7 @@ def ProvRecord_eq(self: "ProvRecord", other: "Val") -> "bool":
     ensures("content-equality", result == (isinst(other, "ProvRecord") and EqRecord(self, as_ref(other, "ProvRecord"))))
 
 
-@contract("prov.model.ProvRecord.__hash__", props=["C04"])
+@contract("prov.model.ProvRecord.__hash__", props=["C04", "C13"])
 def ProvRecord_hash(self: "ProvRecord") -> "int":
     pure()
     requires("attrs-wf", AttrsWF(self))
@@ -202,7 +202,7 @@ def record_eq_equiv(x: "ProvRecord", y: "ProvRecord", z: "ProvRecord"):
 
 
 # ---------------------------------------------------------------------------------------------- bundles
-@contract("prov.model.ProvBundle.get_records", props=["C04", "C18"])
+@contract("prov.model.ProvBundle.get_records", props=["C04", "C18", "C13"])
 def ProvBundle_get_records(self: "ProvBundle", class_or_type_or_tuple: "none" = None) -> "Seq[ProvRecord]":
     pure()
     ensures("all-records", same(result, self._records))
@@ -219,7 +219,7 @@ def SameRecordSet(x: "ProvBundle", y: "ProvBundle") -> "bool":
     return same(rec_keys(x._records), rec_keys(y._records))
 
 
-@contract("prov.model.ProvBundle.__eq__", props=["C04"])
+@contract("prov.model.ProvBundle.__eq__", props=["C04", "C13"])
 def ProvBundle_eq(self: "ProvBundle", other: "Val") -> "bool":
     pure()
     requires("records-wf", RecordsWF(self))
@@ -243,7 +243,7 @@ def ProvBundle_eq(self: "ProvBundle", other: "Val") -> "bool":
     ensures("same-record-set", result == (isinst(other, "ProvBundle") and SameRecordSet(self, as_ref(other, "ProvBundle"))))
 
 
-@contract("prov.model.ProvBundle.__ne__", props=["C04"])
+@contract("prov.model.ProvBundle.__ne__", props=["C04", "C13"])
 def ProvBundle_ne(self: "ProvBundle", other: "Val") -> "bool":
     pure()
     requires("records-wf", RecordsWF(self))
@@ -267,7 +267,7 @@ def SameBundles(x: "ProvDocument", y: "ProvDocument") -> "bool":
         "str")
 
 
-@contract("prov.model.ProvDocument.__eq__", props=["C04"])
+@contract("prov.model.ProvDocument.__eq__", props=["C04", "C13"])
 def ProvDocument_eq(self: "ProvDocument", other: "Val") -> "bool":
     pure()
     requires("records-wf", RecordsWF(self) and BundlesWF(self))
